@@ -57,6 +57,12 @@ func runC04(c *Ctx) {
 		c.mergeModel("O2-incremental-keeps-order", f)
 	}
 	c.ruleFullBuildAndRemoval("O2-full-build-and-removal-sorted")
+	// the error policy acts on what RuleEntity.Execute reports: a rule that fails by a fault
+	// inside the interpreter must come back as a failed rule (error set, shared with C09-R1)
+	if f := c.MustFn("O5-failure-reported", "internal/base", "RuleEntity", "Execute"); f != nil {
+		ok, why := c.panicSafe(f)
+		c.Check("O5-failure-reported", "RuleEntity.Execute", ok, f.Pos(), "%s", why)
+	}
 	c.Min("O2-incremental-keeps-order", 30)
 	c.Min("O3-loop-discipline", 40)
 	c.Min("O2-order-source", 5)
